@@ -35,7 +35,7 @@ def cell_ok(cell, o):
     if res == "err":
         return cell["m"] != "ok"
     if cell["any"]:
-        return True
+        return None         # where Den is silent TLC still has something to say (SerdeModel!AnyWellFormed)
     if o["bytes"] in cell["okb"]:
         return True
     return None
